@@ -10,6 +10,8 @@ CONSTANTS
   MaxInb = 1000000
   MaxFc = 1000000
   MaxExp = 1000000
+  MaxFull = 1000000
+  PCap = 4096
   Eager <- NoEager
   EagerCmd = FALSE
   SplitClose = TRUE
